@@ -298,6 +298,7 @@ class Evaluator:
         self.deep_protect: set = set()
         self.deep_inlined: set = set()
         self._global_cache: dict = {}
+        self._desugar_cache: dict = {}
         self._newtypes: Optional[dict] = None
         from .types import Types
 
@@ -450,7 +451,7 @@ class _FuncEval:
                 s2_ = stmts[i + 1]
                 if isinstance(s2_, ast.If) and not s2_.orelse and i + 2 < len(stmts) and s2_.body and \
                         isinstance(s2_.body[-1], (ast.Raise, ast.Return)):
-                    k2 = ("t3rest", id(s2_))
+                    k2 = ("t3rest", s2_)
                     alt = self._desugared.get(k2)
                     if alt is None:
                         import copy as _copy
@@ -482,7 +483,7 @@ class _FuncEval:
         node = f.node
         if isinstance(node, ast.Lambda):
             return None
-        key = ("gen", id(node))
+        key = ("gen", node)
         if key in self._desugared:
             return self._desugared[key] or None
 
@@ -575,7 +576,7 @@ class _FuncEval:
         into `return V` inside the loop.  R must not contain a break / continue of its own level (it would bind to this loop once
         copied) nor definitions; the loop's breaks inside a try with a finally clause are left alone."""
         import copy
-        key = id(loop)
+        key = ("tail", loop)
         if key in self._desugared:
             got = self._desugared[key]
             return (got + list(rest)) if got else None
@@ -1332,7 +1333,7 @@ class _FuncEval:
                 if ft == ("ext", "contextlib.suppress"):
                     ca = s.items[0].context_expr.args
                     ty = ca[0] if len(ca) == 1 else ast.Tuple(elts=list(ca), ctx=ast.Load())
-                    key = id(s)
+                    key = ("suppress", s)
                     t_ = self._desugared.get(key)
                     if t_ is None:
                         h_ = ast.ExceptHandler(type=ty, name=None, body=[ast.copy_location(ast.Pass(), s)])
@@ -1415,14 +1416,18 @@ class _FuncEval:
         return st
 
     _closures: dict = {}
-    _desugared: dict = {}  # id(ast node) -> desugared statement(s); kept so that node identity is stable across evaluations
+    @property
+    def _desugared(self) -> dict:
+        """(kind, ast node) -> desugared statement(s), per Evaluator (= per parsed tree).  Keyed by the node object itself, which
+        keeps it alive: an id() could be reused by a node of another tree parsed later in the same process."""
+        return self.ev._desugar_cache
 
     def _desugar_match(self, s: "ast.Match") -> Optional[list]:
         """`match E: case P1: B1 ...` as `_m = E; if T1: B1 elif ...` for patterns whose test is an ordinary expression: literal and
         dotted-name values (==), None/True/False (is), class patterns without sub-patterns (isinstance; for the builtin types too),
         or-patterns of those, a wildcard, a bare capture name, `P as name`, and guards.  Exact for these forms (PEP 634); anything
         else (sequence, mapping, class patterns with arguments, star patterns) is left unsupported."""
-        got = self._desugared.get(id(s))
+        got = self._desugared.get(("match", s))
         if got is not None:
             return got or None
         tmp = f"_match_subject_{getattr(s, 'lineno', 0)}"
@@ -1465,13 +1470,13 @@ class _FuncEval:
                 else:
                     chain = [ast.If(test=t_, body=body, orelse=chain)]
         except ValueError:
-            self._desugared[id(s)] = []
+            self._desugared[("match", s)] = []
             return None
         out = [ast.Assign(targets=[ast.Name(id=tmp, ctx=ast.Store())], value=s.subject)] + chain
         for n_ in out:
             ast.copy_location(n_, s)
             ast.fix_missing_locations(n_)
-        self._desugared[id(s)] = out
+        self._desugared[("match", s)] = out
         return out
 
     def bind(self, name: str, v: Term, st: State, node: ast.AST) -> None:
@@ -1521,7 +1526,7 @@ class _FuncEval:
         D, k = call.func.value, call.args[0]
         if not (plain(D) and plain(k)):
             return None
-        key = ("optget", id(s))
+        key = ("optget", s)
         if key in self._desugared:
             return self._desugared[key] or None
         dt = self.expr(D, st)
